@@ -125,4 +125,42 @@ theorem shouldProcess_tree_matches_source (utype : String → UpkeepType) (s : S
     cases hp : v.pending <;> cases hu : utype uid <;> by_cases ht : v.ttype = performEvent <;>
       simp_all [typeCode, performEvent, Gen.Src.c07ShouldProcessTreeVal]
 
+/-! ### more control structure regenerated as decision trees -/
+
+/-- **the loop body of `FilterProposals` is the source's decision tree**: a proposal is kept exactly
+when the body falls off its end (exit 0) and dropped at either `continue` (pending; performed log unit) -/
+theorem proposalAllowed_tree_matches_source (utype : String → UpkeepType) (s : St) (w uid : String) :
+    proposalAllowed utype s w uid =
+      decide ((match s.cache.get w s.now with
+        | none => Gen.Src.c07FilterProposalsTree false false (typeCode (utype uid)) 0
+        | some v => Gen.Src.c07FilterProposalsTree true v.pending (typeCode (utype uid)) v.ttype) = 0) := by
+  unfold proposalAllowed
+  cases s.cache.get w s.now with
+  | none => simp [Gen.Src.c07FilterProposalsTree]
+  | some v =>
+    cases hp : v.pending <;> cases hu : utype uid <;> by_cases ht : v.ttype = performEvent <;>
+      simp_all [typeCode, performEvent, Gen.Src.c07FilterProposalsTree]
+
+/-- … and `filterProposals` keeps an item exactly on exit 0 of that body (one step of the loop) -/
+theorem filterProposals_step_tree_matches_source (utype : String → UpkeepType) (s : St) (p : Proposal) (ps res : List Proposal) :
+    filterLoop (fun p => proposalAllowed utype s p.workID p.upkeepID) res (p :: ps) =
+      if (match s.cache.get p.workID s.now with
+          | none => Gen.Src.c07FilterProposalsTree false false (typeCode (utype p.upkeepID)) 0
+          | some v => Gen.Src.c07FilterProposalsTree true v.pending (typeCode (utype p.upkeepID)) v.ttype) = 0
+      then filterLoop (fun p => proposalAllowed utype s p.workID p.upkeepID) (res ++ [p]) ps
+      else filterLoop (fun p => proposalAllowed utype s p.workID p.upkeepID) res ps := by
+  simp only [filterLoop, proposalAllowed_tree_matches_source, decide_eq_true_eq]
+
+/-- **the any-of loops have no exit**: the bodies of `for _, upkeep := range upkeeps` in
+`ShouldAcceptAttestedReport` / `ShouldTransmitAcceptedReport` contain no `return`, `break` or `continue`
+— every upkeep of a report is visited whatever the answers (what `acceptReport` / `transmitReport` do:
+`acceptReport_matches_source`) — and outside the loop the functions return only on a decoding error
+(exit 1) or at the end (exit 2, `return accept, nil` / `return transmit, nil`) -/
+theorem report_loops_tree_matches_source (answer : Bool) :
+    Gen.Src.c07AcceptLoopTree answer = 0 ∧ Gen.Src.c07TransmitLoopTree answer = 0 ∧
+    Gen.Src.c07AcceptReportTree false = 2 ∧ Gen.Src.c07TransmitReportTree false = 2 ∧
+    Gen.Src.c07AcceptReportTree true = 1 ∧ Gen.Src.c07TransmitReportTree true = 1 := by
+  cases answer <;> simp [Gen.Src.c07AcceptLoopTree, Gen.Src.c07TransmitLoopTree, Gen.Src.c07AcceptReportTree,
+    Gen.Src.c07TransmitReportTree]
+
 end AutoVerif.C07
